@@ -69,17 +69,24 @@ def build_hier(spec):
     lls = []
     for i, ll in enumerate(spec['lls']):
         lls.append(llbuild.build_ll(ll, ident=None if spec['ids'] is None else spec['ids'][i]))
-    if spec.get('late') and spec['pop']['kind'] == 'red':
-        # the user fixes (by name) on a model still configured for one individual
-        pop = spec['pop']
-        names_full = ref.build_pop(pop['base'], ll_param_names(spec), n_ids).get_parameter_names()
-        base = ref.build_pop(pop['base'], ll_param_names(spec), None)
-        pm = chi.ReducedPopulationModel(base)
-        pm.fix_parameters({names_full[j]: float(v) for j, v in zip(pop['fixed'], pop['values'])})
-    else:
-        pm = ref.build_pop(spec['pop'], ll_param_names(spec), None if spec.get('late') else n_ids)
+    pm = build_population(spec, ll_param_names(spec))
     cov = None if spec['cov'] is None else np.array(spec['cov'], dtype=float)
     return chi.HierarchicalLogLikelihood(lls, pm, covariates=cov)
+
+
+def build_population(spec, dim_names):
+    """The population model of a hierarchical spec (late = still configured for its default single individual; a
+    reduced one is then fixed by name, as a user would)."""
+    import chi
+    n_ids = spec['n_ids']
+    if spec.get('late') and spec['pop']['kind'] == 'red':
+        pop = spec['pop']
+        names_full = ref.build_pop(pop['base'], dim_names, n_ids).get_parameter_names()
+        base = ref.build_pop(pop['base'], dim_names, None)
+        pm = chi.ReducedPopulationModel(base)
+        pm.fix_parameters({names_full[j]: float(v) for j, v in zip(pop['fixed'], pop['values'])})
+        return pm
+    return ref.build_pop(spec['pop'], dim_names, None if spec.get('late') else n_ids)
 
 
 def expected_ids(spec):
